@@ -20,7 +20,15 @@ def run_unit(cid, tier, seed, fam, start, count):
     samples = []
     extra = {}
     evals = 0
+    from . import tap
+
+    tap_n = 25 if fam in ("random", "sweep") and getattr(spec, "mods", None) is not None else 0
+    tapped = tap_n and tap.start(spec.mods)
     for i in range(start, start + count):
+        if tapped and i - start >= tap_n:
+            tap.stop()
+            tapped = False
+            extra["tapped_executions"] = extra.get("tapped_executions", 0) + tap_n
         case = spec.make_case(fam, seed, i, tier)
         if case is None:
             continue
@@ -51,6 +59,13 @@ def run_unit(cid, tier, seed, fam, start, count):
                 extra.setdefault(k, Counter()).update(v)
             else:
                 extra[k] = extra.get(k, 0) + v
+    if tapped:
+        tap.stop()
+        extra["tapped_executions"] = extra.get("tapped_executions", 0) + min(tap_n, count)
+    th, ra = tap.drain()
+    if th or ra:
+        extra.setdefault("cancel_sites", Counter()).update(th)
+        extra.setdefault("raise_sites", Counter()).update(ra)
     return {"family": fam, "evals": evals, "sit": dict(sit), "sigs": sorted(sigs), "viol": viol,
             "samples": samples, "extra": {k: (dict(v) if isinstance(v, Counter) else v) for k, v in extra.items()}}
 
